@@ -2,6 +2,7 @@ import Logrange.Proofs.TagsTight
 import Logrange.Proofs.ParsedKeys
 import Logrange.Proofs.TagsNecessity
 import Logrange.Proofs.TagsNecessityN
+import Logrange.Proofs.TagsNecessityS2
 /-!
 # C08 — how tight is the hypothesis `safe` of `tags_roundtrip_partial`?
 
@@ -102,6 +103,18 @@ theorem safeW_iff_noDQ (m : Map) (hwf : Map.WF m) (h : ∀ p ∈ m, needsQuote p
 
 /-- non-vacuity: `a=x},{c=2` (in `safeW \ safe`) has inert raw values -/
 example : Logrange.Proofs.TagsNecessityN.rawInert [([97], [120, 125]), ([123, 99], [50])] = true := by decide +kernel
+
+/-- necessity also when only the LAST value may be a non-inert raw value (all earlier raw values inert): a non-inert raw value
+at the end leaves the splitter inside a string — the split fails (`last_raw_not_inert`) -/
+theorem safeW_necessary_initInert (A : Map) (k v : Bytes) (hwf : Map.WF (A ++ [(k, v)]))
+    (hA : Logrange.Proofs.TagsNecessityN.rawInert A = true)
+    (h : parse (line (A ++ [(k, v)])) = some (A ++ [(k, v)])) : safeW (A ++ [(k, v)]) = true :=
+  Logrange.Proofs.TagsNecessityS2.safeW_necessary_initInert A k v hwf hA h
+
+/-- a `,` that reaches `ToMap`'s value decoding survives it (raw, double-quoted or back-quoted: `,` is no part of any
+escape), so the value piece that runs on past a swallowed separator never decodes to the raw value it started with -/
+theorem diverged_piece_ne (v z x : Bytes) (hv : CM ∉ v) (hd : decodeValue (trimSpaces (v ++ CM :: z)) = some x) : x ≠ v :=
+  Logrange.Proofs.TagsNecessityS2.diverged_piece_ne v z x hv hd
 
 /-- the full characterisation for any number of pairs — what is left open is exactly the case of a raw value that is NOT
 inert (an unbalanced double quote in a value printed without quotes): see the header -/
